@@ -128,6 +128,9 @@ Json::Value gen() {
   sc["devs"]["8:0"] = "ssd";
   // signalling takes time on a loaded machine: the hook window can close in the middle of a walk
   if (P(30)) sc["kill_cost_ms"] = R(50, 900);
+  // cgroup identities as kernfs builds them: a re-created cgroup differs from its predecessor only in the
+  // upper 32 bits of its id
+  if (P(35)) sc["virt_ino"] = true;
   sc["world"] = w0.toJson();
   int nticks = R(3, 8);
   World view = w0;
